@@ -28,7 +28,9 @@ Inductive node_load := NLOk (fp : list (nat * list fprow)) (rfp : list (nat * li
                      | NLBadMsg          (* kj::Exception in a stop file: -EBADMSG, loading stops *)
                      | NLInvalid.        (* any other exception: -EINVAL *)
 
-(* rows of one stop file: entries naming unknown stops are skipped; an unparsable uuid throws *)
+(* rows of one stop file: an unparsable uuid throws; then entries naming unknown stops are skipped; then (D15 repair,
+   nodes_cache_fetcher.cpp:156-160) entries with a negative walking time are skipped the same way: neither the forward
+   list nor the reverse list gets the row *)
 Fixpoint node_rows (known : list nat) (l : list fp_msg) : option (list fprow) :=
   match l with
   | [] => Some []
@@ -38,7 +40,8 @@ Fixpoint node_rows (known : list nat) (l : list fp_msg) : option (list fprow) :=
       | Some n =>
           match node_rows known r with
           | None => None
-          | Some rows => Some (if memb n known then {| fp_node := n; fp_time := fm_time m; fp_dist := fm_dist m |} :: rows else rows)
+          | Some rows => Some (if memb n known && (0 <=? fm_time m)
+                               then {| fp_node := n; fp_time := fm_time m; fp_dist := fm_dist m |} :: rows else rows)
           end
       end
   end.
